@@ -2,7 +2,7 @@ from common import COMMON_TB
 
 CFG = {
     "technique": "Lean 4 theorems (consistency invariant Inv + index invariant IdxInv proved for Create and preserved by each of the 23 operations of the AddrDerive model (incl. DeriveFromKeyPathCache and RenameAccount); abstract HD with the laws Lawful / NoHardPub as hypotheses) + differential run of the real waddrmgr.Manager with an independent BIP32/legacy derivation and address-encoding oracle",
-    "level_text": "The bookkeeping clauses of C03 (issued address = child b/i of the account key recorded for the account, address format, reported path, consecutive indices over valid children, returned private key is the key of the public key, a key is returned whenever unlocked and the account has one, imported keys/scripts unchanged, re-creation from the same seed, the DeriveFromKeyPathCache key is the child of the InternalAccount's key and equals the DeriveFromKeyPath+PrivKey key, RenameAccount keeps keys / indices / overriding address schema) are Lean theorems about the executable model of waddrmgr for every history; the model is tied to the Go code op by op on random seeds / scopes / accounts / interleavings, and every address is recomputed by an independent oracle.",
+    "level_text": "The bookkeeping clauses of C03 (issued address = child b/i of the account key recorded for the account, address format, reported path, consecutive indices over valid children, returned private key is the key of the public key, a key is returned whenever unlocked and the account has one, imported keys/scripts unchanged, re-creation from the same seed, the DeriveFromKeyPathCache key is the child of the InternalAccount's key and equals the DeriveFromKeyPath+PrivKey key, look-ups do not interact (the answer for a path does not depend on earlier look-ups or on what their callers did with the keys), RenameAccount keeps keys / indices / overriding address schema) are Lean theorems about the executable model of waddrmgr for every history; the model is tied to the Go code op by op on random seeds / scopes / accounts / interleavings, and every address is recomputed by an independent oracle.",
     "level_note": "Partial: secp256k1, HMAC-SHA512, base58/bech32 are modelled by the abstract HD structure (law neuter(child k i) = pubChild(neuter k) i is a hypothesis); they are exercised, not proved, by the independent oracle. Invalid children cannot be provoked in Go and are covered by the model only.",
     "lean_props": ["BtcwVerif.Props.C03"],
     "engines": ["addrmgr-derive"],
